@@ -6,6 +6,10 @@
 //   INT|UNI|DIF|SYM <g> | A | B GEOSIntersectionPrec_r ... GEOSSymDifferencePrec_r        -> OK v=<valid> p=<getPrecision bits> <geom> | EXC <msg>
 //   UUP <g> | A                 GEOSUnaryUnionPrec_r
 //   SETP <g> <flags> | A        GEOSGeom_setPrecision_r
+//   HIST <k> (<g> <flags>)*k <op|-> | A [| B]
+//                               a precision history: X_i = GEOSGeom_setPrecision_r(X_(i-1), g_i, flags_i) for each operand, then
+//                               (op = INT UNI DIF SYM) the plain GEOSIntersection_r ... of the two reduced operands
+//                               -> OK ;; S <operand> <i> v=<valid> p=<getPrecision bits> <geom> ;; ... ;; R v= p= <geom>  | EXC <where> <msg>
 #define private public
 #define protected public
 #include <geos/geom/PrecisionModel.h>
@@ -152,6 +156,38 @@ int main() {
         }
         if (bad || !g[0] || head.size() < 2) { printf("BADINPUT %s\n", lastmsg.c_str()); fflush(stdout); continue; }
         lastmsg.clear();
+        if (c == "HIST") {
+            int k = atoi(head[1].c_str());
+            if ((int)head.size() < 3 + 2 * k) { printf("BADINPUT HIST\n"); fflush(stdout); for (auto* x : g) if (x) GEOSGeom_destroy_r(h, x); continue; }
+            std::string op = head[2 + 2 * k];
+            std::ostringstream o; o << "OK";
+            GEOSGeometry* cur[2] = {g[0], g[1]}; bool failed = false;
+            for (int w = 0; w < 2 && !failed; w++) {
+                if (!cur[w]) continue;
+                for (int i = 0; i < k && !failed; i++) {
+                    GEOSGeometry* nx = GEOSGeom_setPrecision_r(h, cur[w], ord(head[2 + 2 * i]), atoi(head[3 + 2 * i].c_str()));
+                    if (!nx) { printf("EXC step %d operand %d: %s\n", i, w, lastmsg.c_str()); failed = true; break; }
+                    if (cur[w] != g[w]) GEOSGeom_destroy_r(h, cur[w]);
+                    cur[w] = nx;
+                    o << " ;; S " << w << ' ' << i << " v=" << (int)GEOSisValid_r(h, nx) << " p=" << hx(GEOSGeom_getPrecision_r(h, nx));
+                    if (!putGeom(o, nx)) { printf("EXC unprintable\n"); failed = true; }
+                }
+            }
+            if (!failed && op != "-" && cur[1]) {
+                GEOSGeometry* r = op == "INT" ? GEOSIntersection_r(h, cur[0], cur[1]) : op == "UNI" ? GEOSUnion_r(h, cur[0], cur[1])
+                                : op == "DIF" ? GEOSDifference_r(h, cur[0], cur[1]) : GEOSSymDifference_r(h, cur[0], cur[1]);
+                if (!r) { printf("EXC overlay: %s\n", lastmsg.c_str()); failed = true; }
+                else {
+                    o << " ;; R v=" << (int)GEOSisValid_r(h, r) << " p=" << hx(GEOSGeom_getPrecision_r(h, r));
+                    if (!putGeom(o, r)) { printf("EXC unprintable\n"); failed = true; }
+                    GEOSGeom_destroy_r(h, r);
+                }
+            }
+            if (!failed) printf("%s\n", o.str().c_str());
+            fflush(stdout);
+            for (int w = 0; w < 2; w++) { if (cur[w] && cur[w] != g[w]) GEOSGeom_destroy_r(h, cur[w]); if (g[w]) GEOSGeom_destroy_r(h, g[w]); }
+            continue;
+        }
         double gs = ord(head[1]);
         GEOSGeometry* r = nullptr; bool done = false;
         if ((c == "INT" || c == "UNI" || c == "DIF" || c == "SYM") && g[1]) {
